@@ -10,7 +10,12 @@ Next == Len(vals) < 3 * MaxFaces /\ \E x \in 0..MaxVal : vals' = Append(vals, x)
 Complete == Len(vals) % 3 = 0
 NF == Len(vals) \div 3
 Row(np, m) == LET r == Decode(NF, np, m, vals) IN
-   [mode |-> "seq", nf |-> NF, npd |-> np, method |-> m, vals |-> vals, out |-> r.out, np |-> r.np, faces |-> r.faces]
+   [mode |-> "seq", nf |-> NF, nfd |-> "exact", npd |-> np, method |-> m, vals |-> vals, out |-> r.out, np |-> r.np, faces |-> r.faces]
+\* declared face counts far beyond the data: "w1" = 0x55555556 and "w2" = 0xAAAAAAAC (3 * faces wraps to 2 / 4 in 32 bits), "max" = 2^32 - 1.  The
+\* decoder refuses them before it looks at anything else (faces <= (2^32 - 1) / 3, faces <= remaining bytes / 3); TLC cannot hold the numbers, the
+\* assembler writes them.
+HugeRow(np, m, code) == [mode |-> "seq", nf |-> NF, nfd |-> code, npd |-> np, method |-> m, vals |-> vals, out |-> "rej:face-count-guard", np |-> 0, faces |-> <<>>]
+HugeRows == (Emit /\ Len(vals) = 3) => \A np \in Points, m \in {0, 1}, code \in {"w1", "w2", "max"} : PrintT(ToJson(HugeRow(np, m, code)))
 \* the large declared point counts matter to the stored-index branch only (they select the index width)
 Cases == (Points \X {0, 1}) \cup (WidthPoints \X {1})
 EmitRows == (Emit /\ Complete) => \A c \in Cases : PrintT(ToJson(Row(c[1], c[2])))
